@@ -7,7 +7,7 @@ use crate::Ctx;
 use crate::out::Sink;
 use crate::hexpr::RESERVED;
 use crate::rng::Rng;
-use crate::rt::{Out, RVal, Sess, cell_fingerprint};
+use crate::rt::{Out, ROut, RVal, Sess, cell_fingerprint};
 use blots_core::heap::HeapValue;
 use blots_core::values::Value;
 use blots_core::verif_hooks;
@@ -630,6 +630,48 @@ pub fn run(ctx: &Ctx, sink: &mut Sink) {
             }
         }
         sink.count("assignment_position_sequences", n_ctx);
+    }
+    // ---- the predefined names (`inf`, `infinity`, `constants`): whatever a statement that uses them as a binding target does
+    // (refused, or accepted without effect), the value observed through them - directly and from inside a function defined
+    // earlier - is the same after the statement as before it, and a do-block / parameter of that name is not seen by a
+    // function called from there
+    if ctx.shard_i == 0 {
+        let probes = ["inf", "infinity", "-inf", "inf > 10", "constants.pi", "constants", "pre()", "[1] via (q => pre())"];
+        let stmts = [
+            "inf = 5", "infinity = 1", "x1 = (inf = 2)", "x2 = [infinity = 3]", "output inf = 4", "x3 = do {\n inf = 3\n return 1\n}", "x4 = do {\n infinity = 0\n return pre()\n}",
+            "x5 = do {\n constants = {pi: 3, e: 2}\n return pre()\n}", "x6 = (constants => pre())({pi: 1, e: 1})", "x7 = (inf => pre())(7)", "x8 = [1] via (infinity => pre())",
+            "x9 = do {\n inf = 1\n infinity = 2\n constants = {pi: 0, e: 0}\n return [1, 2] via (q => pre())\n}", "inf = x => x", "constants = 2", "infinity = infinity",
+        ];
+        let mut n_pre = 0u64;
+        for first in 0..stmts.len() {
+            let sess = Sess::new();
+            let _ = sess.eval("pre = () => [inf, infinity, constants.pi, constants.e]");
+            let reference: Vec<ROut> = probes.iter().map(|p| sess.rout(&sess.eval(p))).collect();
+            let pre_top = sess.rout(&sess.eval("pre()"));
+            let mut history: Vec<String> = vec!["pre = () => [inf, infinity, constants.pi, constants.e]".to_string()];
+            for k in 0..stmts.len() {
+                let st = stmts[(first + k) % stmts.len()];
+                let out = sess.rout(&sess.eval(st));
+                history.push(st.to_string());
+                n_pre += 1;
+                sink.case(&format!("predefined|{}|{}", first, k), true);
+                for (p, was) in probes.iter().zip(reference.iter()) {
+                    let now = sess.rout(&sess.eval(p));
+                    if !was.agrees(&now) {
+                        sink.viol(&format!("predefined-name-value-changed probe={}", p), "a statement changed the value observed through a predefined name", json!({"history": history, "probe": p, "before": was.show(), "after": now.show()}));
+                    }
+                }
+                // statements x4.. return what pre() gave when called from inside a block / call that shadows the names
+                if st.starts_with("x4") || st.starts_with("x5") || st.starts_with("x6") || st.starts_with("x7") {
+                    if let (ROut::Ok(got), ROut::Ok(top)) = (&out, &pre_top) {
+                        if got != top {
+                            sink.viol("caller-locals-visible-in-callee predefined-name", "a do-block local / parameter named like a predefined name is seen by a function called from there", json!({"history": history, "statement": st, "got": out.show(), "at_top_level": pre_top.show()}));
+                        }
+                    }
+                }
+            }
+        }
+        sink.count("predefined_name_statements", n_pre);
     }
     // ---- random longer sessions on 6 names
     let sessions = ctx.budget(1500, 30_000);
